@@ -220,14 +220,11 @@ extern "C" void vh_c01_polynomial() {
     if (prev == 0 && deg <= 1) {                 // (degree >= 1 adds a symbolic product per element and conversion: beyond the quick budget)
       std::vector<int64_t> c64(2); a.getData(DataType::Int64, c64.data(), NDSize({2}), NDSize({0}));
       std::vector<int32_t> c32(2); a.getData(DataType::Int32, c32.data(), NDSize({2}), NDSize({0}));
-      std::vector<float> cf(2); a.getData(DataType::Float, cf.data(), NDSize({2}), NDSize({0}));          // exactly sized buffers: an over-long transfer is a memory error
-      std::vector<int8_t> c8(2); a.getData(DataType::Int8, c8.data(), NDSize({2}), NDSize({0}));
       bool same = true;
       for (int k = 0; k < 2; k++) {
         int64_t x = (k ? x1 : x0) - org;
         int64_t want = deg == 0 ? x : (int64_t)c0 + (deg > 1 ? (int64_t)c1 * x : 0) + (deg > 2 ? (int64_t)c2 * x * x : 0);
-        same = same & (c64[k] == want) & ((int64_t)c32[k] == want) & (cf[k] == (float)want);
-        if (want >= -128 && want <= 127) same = same & ((int64_t)c8[k] == want);
+        same = same & (c64[k] == want) & ((int64_t)c32[k] == want);
       }
       nixsym_assert(same, "calibrated read converted to the requested integer type (Int64, Int32)");
     }
@@ -236,6 +233,45 @@ extern "C" void vh_c01_polynomial() {
     a.polynomCoefficients(none); a.expansionOrigin(none);
     std::vector<double> back; a.getData(back);
     nixsym_assert(back[0] == (double)x0 && back[1] == (double)x1, "unsetting the calibration restores plain reads");
+    nixsym_reach("done");
+}
+
+// calibrated reads converted to every numeric element type, into exactly sized buffers (an over-long transfer is a memory error the
+// engine reports); concrete values from menus, so this entry is cheap
+template <class T> static void cal_read_as(DataArray &a, DataType dt, const int64_t want[3], const char *msg) {
+    std::vector<T> buf(3);
+    a.getData(dt, buf.data(), NDSize({3}), NDSize({0}));
+    bool ok = true; for (int k = 0; k < 3; k++) ok = ok && buf[k] == (T)want[k];
+    nixsym_assert(ok, msg);
+    std::vector<T> one(1);
+    a.getData(dt, one.data(), NDSize({1}), NDSize({2}));
+    nixsym_assert(one[0] == (T)want[2], msg);
+}
+extern "C" void vh_c01_calibrated_types() {
+    nixsym_declare_reach("done");
+    File f = File::open("c01t.h5", FileMode::Overwrite);
+    Block b = f.createBlock("b", "t");
+    uint32_t st = nixsym_choice("stored", 3);
+    DataArray a = b.createDataArray("a", "t", st == 0 ? DataType::Int32 : st == 1 ? DataType::Double : DataType::UInt8, NDSize({3}));
+    std::vector<int32_t> raw = {1, 2, 5};
+    a.setData(DataType::Int32, raw.data(), NDSize({3}), NDSize({0}));
+    uint32_t cal = nixsym_choice("cal", 3);                       // polynomial 3 + 2x | origin 1 only | both
+    if (cal != 1) a.polynomCoefficients({3.0, 2.0});
+    if (cal != 0) a.expansionOrigin(1.0);
+    int64_t want[3];
+    for (int k = 0; k < 3; k++) { int64_t x = raw[k] - (cal != 0 ? 1 : 0); want[k] = cal == 1 ? x : 3 + 2 * x; }
+    cal_read_as<double>(a, DataType::Double, want, "calibrated read as Double");
+    cal_read_as<float>(a, DataType::Float, want, "calibrated read as Float");
+    cal_read_as<int8_t>(a, DataType::Int8, want, "calibrated read as Int8");
+    cal_read_as<int16_t>(a, DataType::Int16, want, "calibrated read as Int16");
+    cal_read_as<int32_t>(a, DataType::Int32, want, "calibrated read as Int32");
+    cal_read_as<int64_t>(a, DataType::Int64, want, "calibrated read as Int64");
+    cal_read_as<uint8_t>(a, DataType::UInt8, want, "calibrated read as UInt8");
+    cal_read_as<uint16_t>(a, DataType::UInt16, want, "calibrated read as UInt16");
+    cal_read_as<uint32_t>(a, DataType::UInt32, want, "calibrated read as UInt32");
+    cal_read_as<uint64_t>(a, DataType::UInt64, want, "calibrated read as UInt64");
+    std::vector<int32_t> direct(3); a.getDataDirect(DataType::Int32, direct.data(), NDSize({3}), NDSize({0}));
+    nixsym_assert(direct == raw, "raw reads unaffected");
     nixsym_reach("done");
 }
 
